@@ -425,7 +425,10 @@ def check_state(hist, model, tier):
             counters["models_returned"] += 1
             counters["distinct_nontrivial"] = counters.get("distinct_nontrivial", 0) + 1
             try:
-                if res == model and hash(res) != hash(model):
+                if (res == model) != (model == res):
+                    fails.append(f"{label.split('(')[0]}: equality: not symmetric between the argument and the returned model "
+                                 f"(result == argument: {res == model}, argument == result: {model == res}) [call {label[:80]}]")
+                if (res == model or model == res) and hash(res) != hash(model):
                     fails.append(f"{label.split('(')[0]}: equality: returns a model that is == its argument but has a different hash [call {label[:80]}]")
             except Exception as e:
                 fails.append(f"{label.split('(')[0]}: equality: comparing/hashing the returned model raises {type(e).__name__}: {str(e)[:80]}")
